@@ -51,8 +51,8 @@ inductive ElemKey where
   | edgeAttr (s t : Nat) (name : String)
   deriving Repr, DecidableEq, Inhabited
 
+/-- private state of a lazy run (the graph and the poll counter live in `Prog.MSt`) -/
 structure LSt where
-  graph : CGraph
   locals : Frames LVal
   thunks : List LThunk
   /-- `LazyScopedVariables.variables`, keyed by variable name -/
@@ -61,19 +61,12 @@ structure LSt where
   attrQ : List LStmt
   printQ : List LStmt
   prevDbg : List (ElemKey × StmtCtx)
-  polls : Nat
-  cancelAt : Option Nat
   deriving Inhabited
 
-instance : HasPolls LSt where
-  polls := fun s => s.polls
-  setPolls := fun s n => { s with polls := n }
-  cancelAt := fun s => s.cancelAt
-
-abbrev LM := ExecM LSt
+abbrev LM := Prog LSt
 
 namespace Lazy
-open ExecM
+open Prog (pollP failP throwK panicAt gopP primP withContext getR modifyR ofExcept ofExceptF)
 
 def setThunk (s : LSt) (loc : Nat) (st : ThunkState) : LSt :=
   match s.thunks[loc]? with
@@ -86,15 +79,10 @@ def setCell (s : LSt) (name : String) (c : ScopedCell) : LSt :=
   else { s with cells := s.cells ++ [(name, c)] }
 
 /-- `LazyStore::add` -/
-def storeAdd (v : LVal) (dbg : StmtCtx) : LM LVal := fun s =>
-  .ok (.var s.thunks.length) { s with thunks := s.thunks ++ [{ state := .unforced v, dbg }] }
+def storeAdd (v : LVal) (dbg : StmtCtx) : LM LVal := primP fun s =>
+  (.ok (.var s.thunks.length), { s with thunks := s.thunks ++ [{ state := .unforced v, dbg }] })
 
-def callFnL (cfg : Cfg) (name : String) (args : List Val) : LM Val := fun s =>
-  match Stdlib.call cfg.oracle cfg.tree name args s.graph with
-  | .ok v g => .ok v { s with graph := g }
-  | .err k => .fail (.err (.base k "")) s
-  | .panic site => .fail (.panic site) s
-  | .need q => .fail (.need q) s
+def callFnL (cfg : Cfg) (name : String) (args : List Val) : LM Val := Strict.callFn cfg name args
 
 def asGraphNodeL : Val → LM Nat
   | .gnode i => pure i
@@ -109,9 +97,9 @@ mutual
 /-- `LazyValue::evaluate` -/
 def evalL (cfg : Cfg) (ef : Nat) (lv : LVal) : LM Val :=
   match ef with
-  | 0 => fail .outOfFuel
+  | 0 => failP .outOfFuel
   | ef' + 1 => do
-    poll "evaluating value"
+    pollP "evaluating value"
     match lv with
     | .value v => pure v
     | .list es => do
@@ -144,19 +132,19 @@ termination_by (ef, 1, es.length + 1)
 /-- `LazyStore::evaluate` + `Thunk::force` (store.rs:76-85, 275-292): a failed force leaves the
 thunk in state `Forcing` -/
 def forceThunk (cfg : Cfg) (ef : Nat) (loc : Nat) : LM Val := do
-  let s ← getSt
+  let s ← getR
   match s.thunks[loc]? with
   | none => panicAt "store index"
   | some t =>
     withContext (.stmt [t.dbg]) (do
-      modifySt fun s => setThunk s loc .forcing
+      modifyR fun s => setThunk s loc .forcing
       match t.state with
       | .unforced lv => do
         let v ← evalL cfg ef lv
-        modifySt fun s => setThunk s loc (.forced v)
+        modifyR fun s => setThunk s loc (.forced v)
         pure v
       | .forced v => do
-        modifySt fun s => setThunk s loc (.forced v)
+        modifyR fun s => setThunk s loc (.forced v)
         pure v
       | .forcing => throwK .recursivelyDefinedVariable)
 termination_by (ef, 1, 0)
@@ -177,7 +165,7 @@ termination_by (ef, 1, pairs.length + 1)
 
 /-- forces the cell of `name` and leaves it `Forced` (on failure it stays `Forcing`) -/
 def forceCell (cfg : Cfg) (ef : Nat) (name : String) (cell : ScopedCell) : LM (List (Nat × LVal)) := do
-  modifySt fun s => setCell s name .forcing
+  modifyR fun s => setCell s name .forcing
   match cell with
   | .unforced pairs => forcePairs cfg ef name pairs [] []
   | .forcing => throwK .recursivelyDefinedScopedVariable
@@ -186,12 +174,12 @@ termination_by (ef, 2, 0)
 
 /-- `LazyScopedVariables::evaluate` (store.rs:138-177) -/
 def resolveScoped (cfg : Cfg) (ef : Nat) (node : Nat) (name : String) : LM LVal := do
-  let s ← getSt
+  let s ← getR
   match s.cells.lookup name with
   | none => throwK .undefinedScopedVariable
   | some cell => do
     let map ← forceCell cfg ef name cell
-    modifySt fun s => setCell s name (.forced map)
+    modifyR fun s => setCell s name (.forced map)
     match map.lookup node with
     | some v => pure v
     | none =>
@@ -207,50 +195,56 @@ end
 
 /-! ### execute phase (lazy.rs:227-876) -/
 
-def pushFrameL : LM Unit := modifySt fun s => { s with locals := s.locals.push }
-def popFrameL : LM Unit := modifySt fun s => { s with locals := s.locals.pop }
-def clearFrameL : LM Unit := modifySt fun s => { s with locals := s.locals.clear }
+def pushFrameL : LM Unit := modifyR fun s => { s with locals := s.locals.push }
+def popFrameL : LM Unit := modifyR fun s => { s with locals := s.locals.pop }
+def clearFrameL : LM Unit := modifyR fun s => { s with locals := s.locals.clear }
 
 /-- `UnscopedVariable::evaluate_lazy` -/
-def unscopedGetL (cfg : Cfg) (name : String) : LM LVal := fun s =>
+def unscopedGetL (cfg : Cfg) (name : String) : LM LVal := primP fun s =>
   match cfg.globals.get name with
-  | some v => .ok (.value v) s
+  | some v => (.ok (.value v), s)
   | none =>
     match s.locals.get name with
-    | some lv => .ok lv s
-    | none => .fail (.err (.base .undefinedVariable "")) s
+    | some lv => (.ok lv, s)
+    | none => (.error (.err (.base .undefinedVariable "")), s)
+
+/-- `locals.add(name, variable, mutable)` -/
+def localsAddL (name : String) (var : LVal) (mutable : Bool) : LM Unit := primP fun s =>
+  match s.locals.add name var mutable with
+  | .ok l => (.ok (), { s with locals := l })
+  | .error _ => (.error (.err (.base .duplicateVariable "")), s)
+
+/-- `locals.set(name, variable)` with the error mapping of `set_lazy` -/
+def localsSetL (name : String) (var : LVal) : LM Unit := primP fun s =>
+  match s.locals.set name var with
+  | .ok l => (.ok (), { s with locals := l })
+  | .error _ =>
+    if (s.locals.get name).isSome then (.error (.err (.base .cannotAssignImmutableVariable "")), s)
+    else (.error (.err (.base .undefinedVariable "")), s)
 
 /-- `UnscopedVariable::add_lazy` -/
-def unscopedAddL (cfg : Cfg) (ctx : StmtCtx) (name : String) (v : LVal) (mutable : Bool) : LM Unit := do
+def unscopedAddL (cfg : Cfg) (ctx : StmtCtx) (name : String) (v : LVal) (mutable : Bool) : LM Unit :=
   match cfg.globals.get name with
   | some _ => throwK .duplicateVariable
   | none => do
     let var ← storeAdd v ctx
-    let s ← getSt
-    match s.locals.add name var mutable with
-    | .ok l => setSt { s with locals := l }
-    | .error _ => throwK .duplicateVariable
+    localsAddL name var mutable
 
 /-- `UnscopedVariable::set_lazy` -/
-def unscopedSetL (cfg : Cfg) (ctx : StmtCtx) (name : String) (v : LVal) : LM Unit := do
+def unscopedSetL (cfg : Cfg) (ctx : StmtCtx) (name : String) (v : LVal) : LM Unit :=
   match cfg.globals.get name with
   | some _ => throwK .cannotAssignImmutableVariable
   | none => do
     let var ← storeAdd v ctx
-    let s ← getSt
-    match s.locals.set name var with
-    | .ok l => setSt { s with locals := l }
-    | .error _ =>
-      if (s.locals.get name).isSome then throwK .cannotAssignImmutableVariable
-      else throwK .undefinedVariable
+    localsSetL name var
 
 /-- `LazyScopedVariables::add` (store.rs:108-136) -/
-def cellAdd (scope : LVal) (name : String) (value : LVal) (dbg : StmtCtx) : LM Unit := fun s =>
+def cellAdd (scope : LVal) (name : String) (value : LVal) (dbg : StmtCtx) : LM Unit := primP fun s =>
   match s.cells.lookup name with
-  | none => .ok () (setCell s name (.unforced [(scope, value, dbg)]))
-  | some (.unforced pairs) => .ok () (setCell s name (.unforced (pairs ++ [(scope, value, dbg)])))
-  | some .forcing => .fail (.err (.base .recursivelyDefinedScopedVariable "")) s
-  | some (.forced _) => .fail (.err (.base .variableScopesAlreadyForced "")) s
+  | none => (.ok (), setCell s name (.unforced [(scope, value, dbg)]))
+  | some (.unforced pairs) => (.ok (), setCell s name (.unforced (pairs ++ [(scope, value, dbg)])))
+  | some .forcing => (.error (.err (.base .recursivelyDefinedScopedVariable "")), s)
+  | some (.forced _) => (.error (.err (.base .variableScopesAlreadyForced "")), s)
 
 /-- how the statements of a block are wrapped (lazy.rs: top level and scan arms wrap, `if`/`for`
 bodies only update the context) -/
@@ -260,7 +254,7 @@ inductive LBlockKind where
   | bare
   deriving Repr, Inhabited
 
-def pushStmt (st : LStmt) : LM Unit := modifySt fun s =>
+def pushStmt (st : LStmt) : LM Unit := modifyR fun s =>
   match st with
   | .attrNode .. => { s with attrQ := s.attrQ ++ [st] }
   | .createEdge .. => { s with edgeQ := s.edgeQ ++ [st] }
@@ -396,18 +390,18 @@ def lazyAttrs (cfg : Cfg) (fuel ef : Nat) (env : Env) (attrs : List AttrE) (acc 
   match attrs with
   | [] => pure acc
   | (name, e) :: rest => do
-    poll "executing attribute"
+    pollP "executing attribute"
     let v ← lazyExpr cfg fuel ef env e
     match Strict.findShorthand cfg name with
     | some sh =>
       match fuel with
-      | 0 => fail .outOfFuel
+      | 0 => failP .outOfFuel
       | fuel' + 1 => do
-        let saved ← getSt
-        modifySt fun s => { s with locals := [[]] }
+        let saved ← getR
+        modifyR fun s => { s with locals := [[]] }
         unscopedAddL cfg env.ctx sh.var v false
         let acc' ← lazyAttrs cfg fuel' ef env sh.attrs acc
-        modifySt fun s => { s with locals := saved.locals }
+        modifyR fun s => { s with locals := saved.locals }
         lazyAttrs cfg (fuel' + 1) ef env rest acc'
     | none => lazyAttrs cfg fuel ef env rest (acc ++ [(name, v)])
 termination_by (fuel, sizeOf attrs)
@@ -421,7 +415,7 @@ mutual
 
 /-- `Statement::execute_lazy` -/
 def lazyStmt (cfg : Cfg) (fuel ef : Nat) (env : Env) (st : Stmt) : LM Unit := do
-  poll "executing statement"
+  pollP "executing statement"
   match st with
   | .declImm v e _ => do
     let value ← lazyExpr cfg fuel ef env e
@@ -433,24 +427,17 @@ def lazyStmt (cfg : Cfg) (fuel ef : Nat) (env : Env) (st : Stmt) : LM Unit := do
     let value ← lazyExpr cfg fuel ef env e
     varSetL cfg env v value
   | .createNode v _ => do
-    let s ← getSt
-    let (g, n) := s.graph.addGraphNode
-    setSt { s with graph := g }
-    let addDbg := fun (name : String) (value : Val) => (fun (s : LSt) =>
-      match s.graph.addNodeAttr n name value with
-      | none => Res.fail (.panic "graph index") s
-      | some (g, false) => Res.ok () { s with graph := g }
-      | some (g, true) => Res.fail (.err (.base .duplicateAttribute "")) { s with graph := g } : LM Unit)
+    let n ← gopP .addNode
     match cfg.varAttr with
-    | some a => addDbg a (.str v.display)
+    | some a => Strict.addDebugNodeAttr n a (.str v.display)
     | none => pure ()
     match cfg.locAttr with
-    | some a => addDbg a (.str (Strict.locString v.loc))
+    | some a => Strict.addDebugNodeAttr n a (.str (Strict.locString v.loc))
     | none => pure ()
     match cfg.matchAttr with
     | some a => do
       match env.mat.nodes fullMatchName with
-      | m :: _ => addDbg a (.syn m)
+      | m :: _ => Strict.addDebugNodeAttr n a (.syn m)
       | [] => panicAt "missing full capture"
     | none => pure ()
     varAddL cfg fuel ef env v (.value (.gnode n)) false
@@ -526,9 +513,9 @@ def lazyScanCollect (o : Oracle) (subject : String) (i : Nat) :
     List (String × List Stmt × Loc) → Nat → LM (List (RMatch × Nat))
   | [], _ => pure []
   | (re, _, _) :: rest, idx => do
-    poll "processing scan matches"
+    pollP "processing scan matches"
     match o.regexAt re subject i with
-    | none => fail (.need (.regexAt re subject i))
+    | none => failP (.need (.regexAt re subject i))
     | some none => lazyScanCollect o subject i rest (idx + 1)
     | some (some m) =>
       if m.stop ≤ m.start then throwK .emptyRegexCapture
@@ -562,7 +549,7 @@ end
 
 /-- `Stanza::execute_lazy` for one match (lazy.rs:174-224) -/
 def execMatchL (cfg : Cfg) (fuel ef : Nat) (st : Stanza) (m : QMatch) : LM Unit := do
-  modifySt fun s => { s with locals := s.locals.clear }
+  modifyR fun s => { s with locals := s.locals.clear }
   let env0 : Env := { caps := [], mat := m, quants := st.captures, ctx := default }
   match m.nodes fullMatchName with
   | [] => panicAt "missing full capture"
@@ -581,54 +568,47 @@ def execMergedL (cfg : Cfg) (fuel ef : Nat) (stanzas : List Stanza) : List QMatc
     match stanzas[m.patternIx]? with
     | none => panicAt "stanza index"
     | some st => do
-      poll "processing matches"
+      pollP "processing matches"
       execMatchL cfg fuel ef st m
     execMergedL cfg fuel ef stanzas rest
 
 /-! ### evaluate phase (lazy/statements.rs) -/
 
-def recordPrev (key : ElemKey) (dbg : StmtCtx) : LM (Option StmtCtx) := fun s =>
+def recordPrev (key : ElemKey) (dbg : StmtCtx) : LM (Option StmtCtx) := primP fun s =>
   let prev := s.prevDbg.lookup key
   let rest := s.prevDbg.filter (·.1 ≠ key)
-  .ok prev { s with prevDbg := rest ++ [(key, dbg)] }
+  (.ok prev, { s with prevDbg := rest ++ [(key, dbg)] })
+
+/-- the failure of a conflicting attribute found during lazy evaluation: it names both statements,
+or only the current one when the earlier value was not set by a statement of this execution -/
+def conflictFail (prev : Option StmtCtx) (dbg : StmtCtx) : Fail :=
+  match prev with
+  | none => .err (.inCtx (.stmt [dbg]) (.base .duplicateAttribute ""))
+  | some p => .err (.inCtx (.stmt [p, dbg]) (.base .duplicateAttribute ""))
 
 def evalNodeAttrs (cfg : Cfg) (ef : Nat) (node : Nat) (dbg : StmtCtx) : List (String × LVal) → LM Unit
   | [] => pure ()
   | (name, lv) :: rest => do
     let v ← evalL cfg ef lv
     let prev ← recordPrev (.nodeAttr node name) dbg
-    let s ← getSt
-    match s.graph.addNodeAttr node name v with
+    let r ← gopP (.addNodeAttr node name v (conflictFail prev dbg))
+    match r with
     | none => panicAt "graph index"
-    | some (g, false) => do
-      setSt { s with graph := g }
-      evalNodeAttrs cfg ef node dbg rest
-    | some (g, true) => do
-      setSt { s with graph := g }
-      match prev with
-      | none => panicAt "prev_debug_info.unwrap()"
-      | some p => withContext (.stmt [p, dbg]) (throwK .duplicateAttribute)
+    | some () => evalNodeAttrs cfg ef node dbg rest
 
 def evalEdgeAttrs (cfg : Cfg) (ef : Nat) (src sink : Nat) (dbg : StmtCtx) : List (String × LVal) → LM Unit
   | [] => pure ()
   | (name, lv) :: rest => do
     let v ← evalL cfg ef lv
-    let s ← getSt
-    match s.graph.getEdge src sink with
+    let g ← gopP .read
+    match g.getEdge src sink with
     | none =>
-      if (s.graph.node? src).isNone then panicAt "graph index" else throwK .undefinedEdge
+      if (g.node? src).isNone then panicAt "graph index" else throwK .undefinedEdge
     | some _ => do
       let prev ← recordPrev (.edgeAttr src sink name) dbg
-      let s ← getSt
-      match s.graph.addEdgeAttr src sink name v with
-      | some (some (g, false)) => do
-        setSt { s with graph := g }
-        evalEdgeAttrs cfg ef src sink dbg rest
-      | some (some (g, true)) => do
-        setSt { s with graph := g }
-        match prev with
-        | none => panicAt "prev_debug_info.unwrap()"
-        | some p => withContext (.stmt [p, dbg]) (throwK .duplicateAttribute)
+      let r ← gopP (.addEdgeAttr src sink name v (conflictFail prev dbg))
+      match r with
+      | some (some ()) => evalEdgeAttrs cfg ef src sink dbg rest
       | _ => panicAt "graph index"
 
 def evalPrintL (cfg : Cfg) (ef : Nat) : List (Option LVal) → LM Unit
@@ -640,7 +620,7 @@ def evalPrintL (cfg : Cfg) (ef : Nat) : List (Option LVal) → LM Unit
 
 /-- `LazyStatement::evaluate` -/
 def evalLStmt (cfg : Cfg) (ef : Nat) (st : LStmt) : LM Unit := do
-  poll "evaluating statement"
+  pollP "evaluating statement"
   match st with
   | .attrNode node attrs dbg =>
     withContext (.stmt [dbg]) (do
@@ -656,14 +636,10 @@ def evalLStmt (cfg : Cfg) (ef : Nat) (st : LStmt) : LM Unit := do
       let b ← withContext (.other "Evaluating edge sink") (do
         let v ← evalL cfg ef sink
         asGraphNodeL v)
-      let s ← getSt
-      match s.graph.node? a with
+      let r ← gopP (.addEdge a b attrs)
+      match r with
       | none => panicAt "graph index"
-      | some nd =>
-        let (nd', isNew) := nd.addEdge b
-        if isNew then
-          setSt { s with graph := s.graph.setNode a { nd' with edges := GNode.setEdgeAttrs nd'.edges b attrs } }
-        else pure ())
+      | some _ => pure ())
   | .attrEdge src sink attrs dbg =>
     withContext (.stmt [dbg]) (do
       let a ← withContext (.other "Evaluating edge source") (do
@@ -692,23 +668,23 @@ def forceAllThunks (cfg : Cfg) (ef : Nat) : Nat → Nat → LM Unit
 def forceAllCells (cfg : Cfg) (ef : Nat) : List String → LM Unit
   | [] => pure ()
   | name :: rest => do
-    let s ← getSt
+    let s ← getR
     match s.cells.lookup name with
     | none => pure ()
     | some cell => do
       let map ← forceCell cfg ef name cell
-      modifySt fun s => setCell s name (.forced map)
+      modifyR fun s => setCell s name (.forced map)
     forceAllCells cfg ef rest
 
 /-- `LazyGraph::evaluate` then the two `evaluate_all` (lazy.rs:94-109) -/
 def evaluatePhase (cfg : Cfg) (ef : Nat) : LM Unit := do
-  let s ← getSt
+  let s ← getR
   evalQueue cfg ef s.edgeQ
   evalQueue cfg ef s.attrQ
   evalQueue cfg ef s.printQ
-  let s ← getSt
+  let s ← getR
   forceAllThunks cfg ef s.thunks.length 0
-  let s ← getSt
+  let s ← getR
   forceAllCells cfg ef ((s.cells.map (·.1)).mergeSort (fun a b => decide (a ≤ b)))
 
 end Lazy
@@ -722,11 +698,9 @@ def Lazy.run (file : File) (tree : Tree) (oracle : Oracle) (callerGlobals : Glob
   | .ok globals =>
     let cfg : Cfg := { tree, oracle, globals, inherited := file.inherited, shorthands := file.shorthands,
                        locAttr, varAttr, matchAttr }
-    let s0 : LSt := { graph := g0, locals := [[]], thunks := [], cells := [], edgeQ := [], attrQ := [], printQ := [],
-                      prevDbg := [], polls := 0, cancelAt }
+    let r0 : LSt := { locals := [[]], thunks := [], cells := [], edgeQ := [], attrQ := [], printQ := [], prevDbg := [] }
+    let s0 : Prog.MSt LSt := { graph := g0, rest := r0, ps := { polls := 0, cancelAt := cancelAt } }
     let prog : LM Unit := do
       Lazy.execMergedL cfg fuel ef file.stanzas merged
       Lazy.evaluatePhase cfg ef
-    match prog s0 with
-    | .ok () s => { outcome := none, graph := s.graph, polls := s.polls }
-    | .fail f s => { outcome := some f, graph := s.graph, polls := s.polls }
+    Prog.toResult (Prog.run prog s0)
